@@ -122,7 +122,8 @@ def battery(kind, what, seeds=range(2), rtol=1e-7, cases=None, nt=3, nv=2):
     Returns (reproduced, record)"""
     for seed in seeds:
         for (nq, na, layout) in (cases or ((1, 1, "zero_first"), (2, 2, "no_zero"), (2, 1, "zero_inside"), (1, 2, "descending"))):
-            d = random_data(seed, nt=nt, nv=nv, nq=nq, na=na, equal_e=(kind == "longitudinal"), t_layout=layout)
+            # one of the four layouts is a SQUARE (T, V) grid: as many temperatures as volumes (an axis chosen by its length goes wrong there)
+            d = random_data(seed, nt=nt, nv=(nt if layout == "no_zero" and cases is None else nv), nq=nq, na=na, equal_e=(kind == "longitudinal"), t_layout=layout)
             if nq > 8:
                 d["omega"][:, 1:, :] = numpy.abs(d["omega"][:, 1:, :]) + 30.0        # a Gamma-like zero only at the first q-point
             try:
